@@ -191,7 +191,7 @@ func cmdVerify(args []string) {
 				if !ok {
 					st = "FAIL"
 				}
-				fmt.Printf("   %s %-60s %d queries", st, n, len(byName[n]))
+				fmt.Printf("   %s %-60s %d queries %.1fs %s", st, n, len(byName[n]), slow, slowSolver)
 				if !ok {
 					for _, o := range byName[n] {
 						if o.Result != "unsat" {
